@@ -24,14 +24,14 @@ ASSUMPTIONS = [
 ]
 TRUSTED = ["vf/tok.py", "vf/ic10_isa.py loader", "vf/ic10_vm.py for the lock-step runs"]
 
-POOL_KINDS = ["ordinary", "prefix", "clash", "lookalike", "operand"]
+POOL_KINDS = ["ordinary", "prefix", "clash", "lookalike", "operand", "regex"]
 
 
 def plan(tier, seed):
     q = tier == "quick"
     tasks = []
     for k in POOL_KINDS:
-        tasks += pool.batches(f"names:{k}", 260 if q else 4000, 10)
+        tasks += pool.batches(f"names:{k}", 220 if q else 3500, 10)
     tasks += pool.batches("strings", 150 if q else 2000, 10) + pool.batches("corpus", len(workload.corpus()), 2)
     tasks += pool.batches("longlines", 120 if q else 2000, 10) + pool.batches("modules", 200 if q else 3000, 10)
     for hz in ("ifexp_else_load",):
